@@ -253,8 +253,11 @@ def analyze(ctx, tier, observable):
             t2_bad += 1
             gv0 = gg[:gg.index(":")] if gg.startswith("ok@") else gg
             direct = None
+            cv = f["C"][:f["C"].index(";")] if f["C"].startswith("ok@") else ("fail" if f["C"].startswith("fail") else f["C"][:8])
             if observable == "offset" and tv != gv0 and (gv0 == "fail" or gv0.startswith("ok@")):
                 direct = ("typed %s, PEG spec / pest %s" % (tv, gv0))
+            elif observable == "offset" and cv != gv0 and (gv0 == "fail" or gv0.startswith("ok@")):
+                direct = ("typed check path %s, PEG spec / pest %s" % (cv, gv0))
             elif observable == "tokens" and tv.startswith("ok@") and gv0.startswith("ok@"):
                 atomic_idx0 = {i + 1 for i, nm in enumerate(g.rules) if g.kinds[nm] in ("atomic", "compound")}
                 want = show_toks(prune(parse_toks(gg[gg.index(":") + 1:]), atomic_idx0))
